@@ -1096,19 +1096,26 @@ where
           _ => unreachable!(),
         };
 
+        // Lock the waker slot already before trying to send. See AsyncWrite.
+        let mut cc_upload_waker = writer.cc_upload_waker.lock().unwrap();
         match writer
           .cc_upload
           .try_send(WriterCommand::WaitForAcknowledgments {
             all_acked: ack_wait_sender,
           }) {
           Ok(()) => {
+            drop(cc_upload_waker);
             *self = AsyncWaitForAcknowledgments::Waiting { ack_wait_receiver };
-            Poll::Pending
+            // Poll the receiver right away: either the result is already
+            // there, or this registers our waker to be notified of it.
+            self.poll(cx)
           }
 
           Err(TrySendError::Full(WriterCommand::WaitForAcknowledgments {
             all_acked: ack_wait_sender,
           })) => {
+            // Writer wakes this when it makes space in the command queue
+            *cc_upload_waker = Some(cx.waker().clone());
             *self = AsyncWaitForAcknowledgments::WaitingSendCommand {
               writer,
               ack_wait_receiver,
